@@ -75,7 +75,7 @@ def obligations(tier):
     for (opB, optB, tB) in ([(FORMAT, 3, '[?]')] if q else [(FORMAT, 3, '[?]'), (APPEND, 0, '{"?":?}'), (CANON, 0, '{"?":1,"?":2}')]):
         L.append(ob("strikes/levels=1100/k=7/B=%s,o%d,%s" % (NAMES[opB], optB, tB), P, "VerifC18Strikes", [1100, 7, opB, optB, tB], step_limit=50_000_000, covers=["end", "buffer-was-discarded"]))
     # ---- hist3: two earlier calls of any kind / option set
-    for (opB, optB, tB) in ([(ISVALID, 0, '{"?":1}')] if q else [(ISVALID, 0, '{"?":1}'), (FORMAT, 3, '[?]'), (CANON, 0, '{"?":1}'), (DECLOOP, 0, '{"?":')]):
+    for (opB, optB, tB) in ([(ISVALID, 0, '{"?":1}')] if q else [(ISVALID, 0, '{"?":1}'), (FORMAT, 3, '[?]'), (CANON, 0, '{"?":1}'), (DECLOOP, 0, '{"?":?}')]):
         for (t1, t2) in ([('{"?":', '[?')] if q else [('{"?":', '[?'), ('{"?":1}', '{"a?":{'), ('?', '{"?":1,')]):
             L.append(ob("hist3/A1=any,%s/A2=any,%s/B=%s,o%d,%s" % (t1, t2, NAMES[opB], optB, tB), P, "VerifC18Hist3", [t1, t2, 3, opB, optB, tB, 3], covers=["B-ok", "B-fails"]))
     # ---- alias
@@ -91,7 +91,7 @@ def obligations(tier):
     # ---- Reset of public coders: tmpl1, opt1, reader/writer kind 1, calls1, tmpl2, opt2, kind 2, calls2
     RD = [('{"?":{"?":', 0, 0, 3, '{"?":?}', 0, 0, 2), ('[{"?":1},', 1, 1, 3, '{"?":1,"?":2}', 0, 0, 2), ('{"?":1,"?":2}', 1, 0, 2, '[?,?', 0, 1, 2), ('[?', 0, 1, 2, '{"?":1,"?":2}', 0, 1, 2)]
     if not q:
-        RD += [('{"?":{"?":', 0, 0, 3, '{"?":?}', 0, 0, 3), ('{"?":1,"?":2}', 1, 0, 2, '[?,?', 0, 1, 3), ('??', 0, 1, 2, '{"?":1,"?":2}', 0, 1, 2), ('{"?":{"?":', 1, 1, 3, '{"?":?}', 0, 1, 3), ('[[?,{"?":', 0, 0, 3, '[{"?":?}]', 0, 0, 3), ('???', 2, 0, 2, '???', 0, 0, 2)]
+        RD += [('{"?":{"?":', 0, 0, 3, '{"?":?}', 0, 0, 3), ('{"?":1,"?":2}', 1, 0, 2, '[?,?', 0, 1, 3), ('??', 0, 1, 2, '{"?":1,"?":2}', 0, 1, 2), ('{"?":{"?":', 1, 1, 3, '{"?":?}', 0, 1, 3), ('[[?,{"?":', 0, 0, 3, '[{"?":?}]', 0, 0, 2), ('???', 2, 0, 2, '???', 0, 0, 2)]
     for r in RD:
         L.append(ob("reset/dec/%s,o%d,r%d,k%d/then/%s,o%d,r%d,k%d" % r, P, "VerifC18ResetDec", list(r), covers=["end", "first-use-ended-in-error", "first-use-left-nested"]))
     RE = [('{"?":{"?":', 0, 0, '{"?":?}', 0, 0, False), ('[{"?":1},', 1, 1, '{"?":1,"?":2}', 0, 0, True), ('{"?":1,"?":2}', 4, 0, '[?,{"?":1}]', 3, 1, False), ('[?', 0, 1, '{"?":1,"?":2}', 0, 1, True)]
